@@ -52,28 +52,42 @@ static reftree::Filter RefFilter(int f) { return f == FNONE ? reftree::Filter() 
 enum Kind { K_SET, K_SET2, K_RM, K_BATCH_SET_RM, K_BATCH_SET_SET, K_SUB, K_UNSUB, K_UNSUB_ALL, K_MAXITEMS, K_SELF, K_ARRIVE, K_LEAVE };
 struct Op { Kind kind; int role; std::string path; int payload; int pat; int filt; bool quiet; bool on; std::string name; };
 
+// enabledness of an operation depends only on this much (kept eagerly, see "lazy execution" below)
+struct Shadow { bool attached[NCLIENT]; std::map<std::string, int> subs[NCLIENT]; Shadow() { for (int i = 0; i < NCLIENT; i++) attached[i] = false; } };
+
 struct World {
    l1::L1World w;
+   bool built;
    reftree::Tree ref;
    std::map<std::string, int> mirror[NCLIENT];    // full path -> payload id (-1: bytes that are not one of the payloads ever sent)
    std::string payBytes[NPAYLOAD];
-   std::vector<std::pair<int, MessageRef> > received;   // what the clients (and the observer) were sent by the last command
-   verif::Hash128 hist;                           // running hash of (part, start, ops applied so far): key of the per-process memo below
+   std::vector<std::pair<int, MessageRef> > received;   // what the clients were sent by the last executed command
+   Shadow sh;
+   std::vector<int> pending;                      // operations accepted but not yet executed on the real server (their prefix is known clean)
+   verif::Hash128 hist, seed;                     // running hash of (part, start, ops applied so far): key of the per-process memo below
    std::string initError, initKey;
-   World() { hist.a = 0; hist.b = 0; }
-   std::string ReceivedText() const { std::string o; for (size_t i = 0; i < received.size(); i++) o += std::string(1, "ABCO"[received[i].first]) + "<-" + l1::MsgText(received[i].second) + "\n"; return o; }
+   World() : built(false) { hist.a = hist.b = seed.a = seed.b = 0; }
+   std::string ReceivedText() const { std::string o; for (size_t i = 0; i < received.size(); i++) o += std::string(1, kRoleCh[received[i].first]) + "<-" + l1::MsgText(received[i].second) + "\n"; return o; }
 };
 
-// The comparisons of the oracle are a pure function of the history (replays are deterministic; the engine samples that), and
-// SEQX replays the same prefix once per alphabet symbol.  Each process therefore remembers which history prefixes it has
-// already compared and found clean, and re-runs only the state-carrying part (inject, drain, apply to mirrors, reference
-// update) for those.  Every distinct prefix is still compared at least once in every process that replays it.
+// LAZY EXECUTION.  SEQX takes a transition by replaying the whole history on a fresh World and then applying the new
+// operation, once per alphabet symbol, including the symbols that turn out to be disabled.  The verdict of the oracle for a
+// history prefix is a pure function of that prefix (replays are deterministic; the engine samples that).  Each process
+// therefore remembers the prefixes it has already executed and compared clean.  Apply() of an operation whose prefix
+// (including itself) is known clean only queues it; the queue is executed on the real server -- state-carrying part only:
+// inject, drain, apply to the mirrors, advance the reference -- when an operation with an unknown verdict arrives, or when
+// the canonical form is asked for.  The operation with the unknown verdict is then executed with ALL comparisons.  Whether
+// an operation is enabled depends only on the Shadow (who is attached, who is subscribed to what), which is kept eagerly, so
+// a disabled symbol costs no server work at all.  Every distinct prefix is still executed and compared at least once in
+// every process that extends it.
 static std::set<verif::Hash128> g_cleanPrefixes;
 
 struct MirrorModel {
    std::vector<Op> ops;
    std::vector<std::vector<int> > starts; std::vector<std::string> startNames;
+   int partId;
 
+   static const std::string & FiltBytes(int f) { static std::string b[3]; if (b[1].empty()) for (int k = 1; k < 3; k++) b[k] = l1::Flat(MakeFilter(k)); return b[f]; }
    int AddOp(const Op & o) { ops.push_back(o); return (int)ops.size() - 1; }
    int FindOp(const std::string & name) const { for (size_t i = 0; i < ops.size(); i++) if (ops[i].name == name) return (int)i; fprintf(stderr, "C04: no op named '%s'\n", name.c_str()); exit(3); }
 
@@ -108,8 +122,6 @@ struct MirrorModel {
       Op o; o.kind = k; o.role = role; o.pat = 0; o.filt = 0; o.quiet = false; o.on = on; o.payload = 0; o.name = std::string(1, kRoleCh[role]) + ": " + text; AddOp(o);
    }
 
-   int partId;
-   static const std::string & FiltBytes(int f) { static std::string b[3]; if (b[1].empty()) for (int k = 1; k < 3; k++) b[k] = l1::Flat(MakeFilter(k)); return b[f]; }
    explicit MirrorModel(bool /*thorough*/) : partId(0)
    {
       // simplest first
@@ -161,30 +173,51 @@ struct MirrorModel {
 
    void Init(World & W, int start) const
    {
-      for (int i = 0; i < NPAYLOAD; i++) { W.payBytes[i] = l1::Flat(MakePayload(i)); W.ref.payloads.push_back(i == PE ? reftree::Payload() : reftree::Payload(true, i == PV1 ? 1 : 2)); }
-      W.ref.emptyPayload = PE;
-      W.hist.a = verif::Mix64(0x1234567ULL + (uint64_t)start * 977 + (uint64_t)partId * 7919); W.hist.b = verif::Mix64(W.hist.a ^ 0x9e3779b97f4a7c15ULL);
-      const int initial[3] = { RA, RB, RO };
-      for (int k = 0; k < 3; k++) { const int r = initial[k]; if (!W.w.Attach(r, kHost[r], kId[r])) { W.initError = "attach failed"; W.initKey = "infra"; return; } W.ref.Arrive(r, kHost[r], l1::U32(kId[r])); }
+      W.seed.a = verif::Mix64(0x1234567ULL + (uint64_t)start * 977 + (uint64_t)partId * 7919); W.seed.b = verif::Mix64(W.seed.a ^ 0x9e3779b97f4a7c15ULL);
+      W.hist = W.seed;
+      W.sh.attached[RA] = W.sh.attached[RB] = true;
       std::string msg, key;
-      if (Check(W, "start", -1, -1, msg, key) != SEQX_OK) { W.initError = msg; W.initKey = key; return; }
       for (size_t i = 0; i < starts[start].size(); i++) {
          const int st = Apply(W, starts[start][i], msg, key);
-         if (st != SEQX_OK) { W.initError = "start-state prefix op '" + ops[starts[start][i]].name + "': " + (st == SEQX_DISABLED ? std::string("disabled") : msg); W.initKey = (st == SEQX_DISABLED) ? "infra" : key; return; }
+         if (st != SEQX_OK) { W.initError = "start-state prefix op '" + ops[starts[start][i]].name + "': " + (st == SEQX_DISABLED ? std::string("disabled") : msg); W.initKey = (st == SEQX_DISABLED || st < 0) ? "infra" : key; return; }
       }
+   }
+
+   // builds the real world of the (bare) start state: A, B and the observer attached
+   int Build(World & W, std::string & msg, std::string & key) const
+   {
+      W.built = true;
+      for (int i = 0; i < NPAYLOAD; i++) { W.payBytes[i] = l1::Flat(MakePayload(i)); W.ref.payloads.push_back(i == PE ? reftree::Payload() : reftree::Payload(true, i == PV1 ? 1 : 2)); }
+      W.ref.emptyPayload = PE;
+      const int initial[3] = { RA, RB, RO };
+      for (int k = 0; k < 3; k++) { const int r = initial[k]; if (!W.w.Attach(r, kHost[r], kId[r])) { msg = "attach failed"; key = "infra"; return -1; } W.ref.Arrive(r, kHost[r], l1::U32(kId[r])); }
+      int st = Carry(W, "start", msg, key);
+      if (st == SEQX_OK && !g_cleanPrefixes.count(W.seed)) { st = Compare(W, "start", -1, -1, msg, key); if (st == SEQX_OK) g_cleanPrefixes.insert(W.seed); }
+      return st;
+   }
+   // executes everything queued (state-carrying part only).  Anything but OK here contradicts the memo => infrastructure error.
+   int Flush(World & W, std::string & msg, std::string & key) const
+   {
+      if (!W.built) { const int st = Build(W, msg, key); if (st != SEQX_OK) return st; }
+      for (size_t i = 0; i < W.pending.size(); i++) {
+         const int st = Exec(W, W.pending[i], false, msg, key);
+         if (st != SEQX_OK) { msg = "operation '" + ops[W.pending[i]].name + "' of a prefix recorded as clean did not re-execute cleanly: " + msg; key = "infra"; W.pending.clear(); return -1; }
+      }
+      W.pending.clear();
+      return SEQX_OK;
    }
 
    int PayloadId(const World & W, const std::string & bytes) const { for (int i = 0; i < NPAYLOAD; i++) if (W.payBytes[i] == bytes) return i; return -1; }
    static std::string PayText(int id) { return (id >= 0 && id < NPAYLOAD) ? kPayName[id] : "<alien payload>"; }
 
-   // applies everything role r was sent to its mirror; returns false (msg set) on a Message that has no business being there
-   bool DrainInto(World & W, int r, std::map<std::string, int> & mirror, bool ignoreOwn, std::string & msg) const
+   // applies everything role r was sent to a mirror; returns false (msg set) on a Message that has no business being there
+   bool DrainInto(World & W, int r, std::map<std::string, int> & mirror, bool ignoreOwn, bool record, std::string & msg) const
    {
       std::vector<MessageRef> got = W.w.Drain(r);
       const std::string own = W.w.Root(r) + "/";
       for (size_t i = 0; i < got.size(); i++) {
          l1::DataItems d;
-         W.received.push_back(std::make_pair(r, got[i]));
+         if (record) W.received.push_back(std::make_pair(r, got[i]));
          if (!l1::ParseDataItems(got[i], d)) { msg = std::string("client ") + kRoleCh[r] + " was sent an unexpected Message " + l1::MsgText(got[i]); return false; }
          for (size_t k = 0; k < d.removed.size(); k++) { if (ignoreOwn && d.removed[k].compare(0, own.size(), own) == 0) continue; mirror.erase(d.removed[k]); }
          for (size_t k = 0; k < d.sets.size(); k++) { if (ignoreOwn && d.sets[k].first.compare(0, own.size(), own) == 0) continue; mirror[d.sets[k].first] = PayloadId(W, l1::Flat(d.sets[k].second)); }
@@ -192,30 +225,24 @@ struct MirrorModel {
       return true;
    }
 
-   // The oracle, evaluated after every command.  changedRole/changedSub identify the subscription whose filter the command
-   // changed (for the classification of finding F11), -1 otherwise.
-   int Check(World & W, const std::string & opKind, int changedRole, int changedSub, std::string & msg, std::string & key) const
+   // state-carrying part of the oracle: the server must be quiescent; every client's queue is drained and applied to its mirror
+   int Carry(World & W, const std::string & opKind, std::string & msg, std::string & key) const
    {
-      // ---- state-carrying part: always
       std::string q = W.w.CheckQuiescent();
       if (!q.empty()) { key = "not-quiescent:" + opKind; msg = "server not quiescent after the command: " + q; return SEQX_VIOLATION; }
       W.received.clear();
       for (int r = 0; r < NCLIENT; r++) if (W.w.IsAttached(r)) {
-         if (!DrainInto(W, r, W.mirror[r], true, msg)) { key = "unexpected-message:" + opKind; return SEQX_VIOLATION; }
+         if (!DrainInto(W, r, W.mirror[r], true, true, msg)) { key = "unexpected-message:" + opKind; return SEQX_VIOLATION; }
       }
       if (W.w.Pending(RO)) { key = "unexpected-message:" + opKind; msg = "the observer (no subscriptions) was sent " + l1::MsgText(W.w.Drain(RO)[0]); return SEQX_VIOLATION; }
-      // ---- comparisons: once per history prefix per process
-      if (g_cleanPrefixes.count(W.hist)) return SEQX_OK;
-      const int st = Compare(W, opKind, changedRole, changedSub, msg, key);
-      if (st == SEQX_OK) { if (g_cleanPrefixes.size() > 2000000) g_cleanPrefixes.clear(); g_cleanPrefixes.insert(W.hist); }
-      return st;
+      return SEQX_OK;
    }
 
+   // the comparisons.  changedRole/changedSub identify the subscription whose filter the command changed (classification of F11)
    int Compare(World & W, const std::string & opKind, int changedRole, int changedSub, std::string & msg, std::string & key) const
    {
       std::string q = W.w.CheckTreeInvariants();
       if (!q.empty()) { key = "tree-invariant:" + opKind; msg = q; return SEQX_VIOLATION; }
-
       // the true tree, three ways
       const std::map<std::string, int> all = W.ref.All();
       {
@@ -228,7 +255,7 @@ struct MirrorModel {
       {
          W.w.Inject(RO, l1::GetData(l1::Keys("/*/*/*", "/*/*/*/*")));
          std::map<std::string, int> seen; std::string m2;
-         if (!DrainInto(W, RO, seen, false, m2)) { key = "unexpected-message:" + opKind; msg = m2; return SEQX_VIOLATION; }
+         if (!DrainInto(W, RO, seen, false, false, m2)) { key = "unexpected-message:" + opKind; msg = m2; return SEQX_VIOLATION; }
          if (seen != all) {
             std::string diff;
             for (std::map<std::string, int>::const_iterator it = all.begin(); it != all.end(); ++it) { std::map<std::string, int>::const_iterator f = seen.find(it->first); if (f == seen.end()) diff += " missing " + it->first; else if (f->second != it->second) diff += " wrong payload at " + it->first; }
@@ -274,15 +301,50 @@ struct MirrorModel {
       return SEQX_OK;
    }
 
+   // is the operation enabled (judged on the shadow)?
+   bool Enabled(const Shadow & sh, const Op & o) const
+   {
+      const int r = o.role;
+      if (o.kind == K_ARRIVE) return !sh.attached[r];
+      if (!sh.attached[r]) return false;
+      if (o.kind == K_SUB) { std::map<std::string, int>::const_iterator it = sh.subs[r].find(kPat[o.pat]); if (o.quiet && it != sh.subs[r].end() && it->second == o.filt) return false; }   // a quiet re-issue with the same filter asks the server for nothing
+      if (o.kind == K_UNSUB || o.kind == K_UNSUB_ALL) return !sh.subs[r].empty();   // (removing a subscription while holding none: nothing to observe)
+      return true;
+   }
+   void AdvanceShadow(Shadow & sh, const Op & o) const
+   {
+      const int r = o.role;
+      switch (o.kind) {
+         case K_ARRIVE: sh.attached[r] = true; sh.subs[r].clear(); break;
+         case K_LEAVE: sh.attached[r] = false; sh.subs[r].clear(); break;
+         case K_SUB: sh.subs[r][kPat[o.pat]] = o.filt; break;
+         case K_UNSUB: sh.subs[r].erase(kPat[o.pat]); break;
+         case K_UNSUB_ALL: sh.subs[r].clear(); break;
+         default: break;
+      }
+   }
+
    int Apply(World & W, int opi, std::string & msg, std::string & key) const
    {
       if (!W.initError.empty()) { msg = "start state is not clean: " + W.initError; key = "start-state:" + W.initKey; return (W.initKey == "infra") ? -1 : SEQX_VIOLATION; }
       const Op & o = ops[opi];
-      const int r = o.role;
-      if (o.kind == K_ARRIVE) { if (W.w.IsAttached(r)) return SEQX_DISABLED; }
-      else if (!W.w.IsAttached(r)) return SEQX_DISABLED;
-      std::string opKind; int changedRole = -1, changedSub = -1;
+      if (!Enabled(W.sh, o)) return SEQX_DISABLED;
+      AdvanceShadow(W.sh, o);
       W.hist.a = verif::Mix64(W.hist.a + (uint64_t)opi + 1); W.hist.b = verif::Mix64((W.hist.b ^ ((uint64_t)opi + 0x51ed27ULL)) * 0x100000001b3ULL);
+      if (g_cleanPrefixes.count(W.hist)) { W.pending.push_back(opi); return SEQX_OK; }
+      int st = Flush(W, msg, key);
+      if (st != SEQX_OK) return st;
+      st = Exec(W, opi, true, msg, key);
+      if (st == SEQX_OK) { if (g_cleanPrefixes.size() > 2000000) g_cleanPrefixes.clear(); g_cleanPrefixes.insert(W.hist); }
+      return st;
+   }
+
+   // executes one operation on the real server, the reference and the mirrors; compare=false: state-carrying part only
+   int Exec(World & W, int opi, bool compare, std::string & msg, std::string & key) const
+   {
+      const Op & o = ops[opi];
+      const int r = o.role;
+      std::string opKind; int changedRole = -1, changedSub = -1;
       switch (o.kind) {
          case K_SET:
             W.w.Inject(r, l1::SetData(o.path, MakePayload(o.payload))); W.ref.SetData(r, o.path, o.payload);
@@ -301,7 +363,6 @@ struct MirrorModel {
             const std::string name = kPat[o.pat];
             const int existing = W.ref.S[r].FindSub(name);
             const bool sameFilter = (existing >= 0) && (W.ref.S[r].subs[existing].f == RefFilter(o.filt));
-            if (o.quiet && sameFilter) return SEQX_DISABLED;   // a quiet re-issue with the same filter asks the server for nothing
             W.w.Inject(r, l1::Subscribe(name, MakeFilter(o.filt), o.quiet));
             if (o.quiet && existing < 0) {   // new quiet subscription: the client fetches the current values itself
                std::vector<MessageRef> fl; fl.push_back(MakeFilter(o.filt));
@@ -313,14 +374,12 @@ struct MirrorModel {
             else opKind = o.quiet ? "subscribe-quiet" : "subscribe";
             break; }
          case K_UNSUB: {
-            if (W.ref.S[r].subs.empty()) return SEQX_DISABLED;   // (removing a subscription while holding none: nothing to observe)
             const std::string name = kPat[o.pat];
             W.w.Inject(r, l1::Unsubscribe(name));
             opKind = W.ref.Unsubscribe(r, name) ? "unsubscribe" : "unsubscribe-not-subscribed";
             W.ref.PruneMirror(r, W.mirror[r]);
             break; }
          case K_UNSUB_ALL:
-            if (W.ref.S[r].subs.empty()) return SEQX_DISABLED;
             W.w.Inject(r, l1::UnsubscribeAll()); W.ref.UnsubscribeAll(r); W.ref.PruneMirror(r, W.mirror[r]); opKind = "unsubscribe-all"; break;
          case K_MAXITEMS:
             if (o.on) { MessageRef m = l1::SetParameters(); l1::AddMaxUpdateItems(m, 1); W.w.Inject(r, m); }
@@ -336,11 +395,16 @@ struct MirrorModel {
          case K_LEAVE:
             (void) W.w.Depart(r); W.ref.Depart(r); W.mirror[r].clear(); opKind = "session-leaves"; break;
       }
-      return Check(W, opKind, changedRole, changedSub, msg, key);
+      const int st = Carry(W, opKind, msg, key);
+      if (st != SEQX_OK || !compare) return st;
+      return Compare(W, opKind, changedRole, changedSub, msg, key);
    }
 
-   void Canon(const World & W, std::string & out) const
+   void Canon(const World & Wc, std::string & out) const
    {
+      World & W = const_cast<World &>(Wc);   // executes what was queued under the memo
+      std::string msg, key;
+      if (Flush(W, msg, key) != SEQX_OK) { out = "FLUSH-FAILED " + msg; return; }
       out = W.w.Dump();
       for (int r = 0; r < NCLIENT; r++) {
          out += std::string("MIRROR ") + kRoleCh[r] + ":";
@@ -348,7 +412,12 @@ struct MirrorModel {
          out += "\n";
       }
    }
-   void Outcome(const World & W, std::string & out) const { out = W.ReceivedText(); }
+   // distinct observable outcomes: what each client was sent by the last command (raw bytes)
+   void Outcome(const World & Wc, std::string & out) const
+   {
+      World & W = const_cast<World &>(Wc); std::string msg, key; (void) Flush(W, msg, key);
+      out.clear(); for (size_t i = 0; i < W.received.size(); i++) { out += kRoleCh[W.received[i].first]; out += l1::Flat(W.received[i].second); }
+   }
 };
 
 static std::string Rule(const MirrorModel & m, int depth, const char * what)
